@@ -125,6 +125,46 @@ fn explore(api: &Api, seed: u64, cx: &mut Cx) {
             }
         }
     }
+    // Curve25519 only: its private-key type is plain bytes, so the public KeGroup functions can be called with RAW keys that
+    // the strict decoder would refuse (1, order-1, all-ones, the unclamped RFC 7748 keys): RFC 7748 clamps inside X25519,
+    // so public_key(k) = X25519(k, 9) and Diffie-Hellman is symmetric for those as well
+    if g == crate::groups::G::X25519 {
+        let mut raws: Vec<(String, Vec<u8>)> = vec![("1".into(), crate::groups::small_int(1, 32, false)), ("all-ones".into(), vec![0xffu8; 32])];
+        raws.push(("order-1".into(), hex::decode("ecd3f55c1a631258d69cf7a2def9de1400000000000000000000000000000010").unwrap()));
+        raws.push(("rfc7748-alice".into(), hex::decode("77076d0a7318a57d3c16c17251b26645df4c2f87ebc0992ab177fba51db92c2a").unwrap()));
+        raws.push(("rfc7748-bob".into(), hex::decode("5dab087e624a8a4b79e17f8b83800ee66f3bb1292618b6fd1c2f8b27ff88e0eb").unwrap()));
+        let mut rpks = vec![];
+        for (n, k) in &raws {
+            cx.begin_case(json!({"check": "public_key on a raw (unclamped) key", "key": n}));
+            cx.state(&("rawpk", n));
+            cx.edges += 1;
+            cx.path();
+            let m = sp.ke.pubkey(k);
+            match api.ke_raw_pk(k) {
+                Ok(pk) if pk == m => cx.outcome("raw-public-key-is-x25519-base"),
+                other => cx.violate("raw/public-key", format!("public_key({}) is not X25519(k, 9): {:?}", n, other.map(hex::encode))),
+            }
+            rpks.push(m);
+        }
+        if rpks[3] != hex::decode("8520f0098930a754748b7ddcb43ef75a0dbf3a0d26381af4eba4a98eaa9b4e6a").unwrap() {
+            cx.violate_case("machinery/rfc7748", "reference model does not reproduce the RFC 7748 6.1 public key".into(), json!({}));
+        }
+        for i in 0..raws.len() {
+            for j in 0..raws.len() {
+                cx.begin_case(json!({"check": "DH symmetry on raw keys", "a": raws[i].0, "b": raws[j].0}));
+                cx.state(&("rawdh", i, j));
+                cx.edges += 2;
+                cx.path();
+                let x = api.ke_raw_dh(&raws[i].1, &rpks[j]);
+                let y = api.ke_raw_dh(&raws[j].1, &rpks[i]);
+                let m = sp.ke.dh(&raws[i].1, &rpks[j]);
+                match (&x, &y) {
+                    (Ok(x), Ok(y)) if x == y && *x == m => cx.outcome("dh-symmetric"),
+                    _ => cx.violate("raw/dh-asymmetric", format!("DH on raw keys {} / {} is not symmetric or differs from X25519", raws[i].0, raws[j].0)),
+                }
+            }
+        }
+    }
     // Curve25519 only: every 32-byte string is a u-coordinate, so Diffie-Hellman must equal X25519 (RFC 7748) for
     // ARBITRARY peer values - points on the twist, points with a small-order component - not only for honest public keys
     if g == crate::groups::G::X25519 {
